@@ -7,7 +7,7 @@ ROOT = os.path.dirname(os.path.dirname(os.path.abspath(__file__)))
 TECH = ("bounded model checking of the compiled Rust code: Kani 0.68 -> CBMC 6.11 -> SAT (cadical); symbolic inputs "
         "via kani::any(), unwinding assertions on, counterexamples replayed natively with cargo kani playback")
 
-TECH2 = TECH + "; for C01, C02, C03, C05, C12, C13 additionally path-forking symbolic execution of rustc's MIR with z3 (mirsym)"
+TECH2 = TECH + "; for C01, C02, C03, C05, C11, C12, C13 additionally path-forking symbolic execution of rustc's MIR with z3 (mirsym)"
 
 CLAIMED = {
     # id: (level text, level_note, design_ref)
@@ -21,7 +21,8 @@ CLAIMED = {
         "terminates and stays in bounds; without_initiators cannot reach Span::new's panic; edit_distance cannot overflow. Panics, "
         "overflow, out-of-bounds and unwinding assertions are all checked by the solver; hangs are confirmed natively. mirsym "
         "(MIR symbolic execution): lex_hex_number on '0x' + 1, 8, 16, 17 (18, 24) symbolic hex digits cannot panic at the u64 "
-        "boundary of from_str_radix.",
+        "boundary of from_str_radix, and lex_url on a concrete URL prefix with 2 (3) fully symbolic characters at the end of its path, "
+        "credential and port parts cannot panic.",
         "Kernels only. Outside the claim: Markdown/HTML/Typst/Literate-Haskell/tree-sitter front-ends, Document::parse and its "
         "condensing passes (Kani ICE on thread_local / memory), dictionary-dependent rules, lex_number's f64 parsing, "
         "mark_inline_tags and PatternMap (Kani limitations, DESIGN.md). Unicode table look-ups are replaced by nondeterministic stubs "
@@ -79,12 +80,27 @@ CLAIMED = {
         "Outside the claim: lint_to_code_actions (Url, HashMap, serde_json: Kani ICE) so TextEdit.new_text per suggestion kind and the "
         "lint filtering/ordering inside DocumentState::generate_code_actions are not solver-checked; the server loop.",
         "DESIGN.md section 4, C08"),
+    "C11": (
+        "Kernel decided by MIR symbolic execution (mirsym, z3): the real LintGroupConfig::{is_rule_enabled, set_rule_enabled, "
+        "unset_rule_enabled, merge_from, clear, fill_with_curated} and `impl Hash for LintGroupConfig`, executed on every configuration "
+        "over two rule keys (each absent / None / Some(false) / Some(true)) plus an unknown key: a rule is on exactly when it is "
+        "Some(true); unknown names are harmless; setting/unsetting one rule changes that rule only; merge_from lets the overlaid "
+        "configuration's explicit choices win and keeps everything else; fill_with_curated (curated table stubbed, all 16 tables) gives "
+        "unset rules their curated default and keeps explicit user choices; two configurations that enable different rules never feed "
+        "the same bytes to the hasher. The per-rule gate of LintGroup::lint for pattern rules (incl. through the clause cache) is "
+        "decided under C05's kernel with two stub rules under all four configurations.",
+        "Not covered: the gate for whole-document rules (dyn Linter path), 'the lints under a configuration are the combination of what "
+        "each enabled rule produces' for the ~290 real rules, the JSON round trip (serde), harper-ls Config::from_lsp_config and "
+        "harper-wasm overlays. BTreeMap<String, Option<bool>> is modelled as an ordered association list; the hasher is a recorder.",
+        "DESIGN.md section 4, C11"),
     "C12": (
         "Structural kernel only: for every sequence of <= 2 (3) tokens over 10 kinds, iter_chunks / iter_sentences / iter_paragraphs "
         "yield non-empty, contiguous, in-order pieces that cover the token list exactly, each piece but the last ending in its "
         "terminator and containing no other terminator. With run_on_chunk (C01) this shows pattern rules are handed one clause at a "
         "time. mirsym: the same partition property from rustc's MIR for 0..=3 (4) tokens, and LintGroup::lint's clause cache kernel "
-        "(see C05): what a clause produces does not depend on where it sits or on what was linted before.",
+        "(see C05): what a clause produces does not depend on where it sits or on what was linted before; and a lexing kernel: "
+        "lex_email_address, lex_url, lex_hostname_token, lex_number and lex_hex_number give the same token for a paragraph followed by "
+        "a blank line whatever 2 (3) characters follow the break.",
         "A narrow slice of C12: every rule's own index arithmetic, whole-document linters and the condensing passes' commutation "
         "with concatenation are outside.",
         "DESIGN.md section 4, C12"),
@@ -125,8 +141,6 @@ NOT_APPLICABLE = {
            "not be the real code",
     "C09": "concurrent async handlers over tokio Mutex/RwLock and a client round trip; Kani does not handle concurrency",
     "C10": "absence of side effects and a dependency-graph property; there is no assertion over inputs for a solver to decide",
-    "C11": "LintGroupConfig is a BTreeMap<String,Option<bool>> (one-key merge_from ran out of memory), the gate lives in "
-           "LintGroup::lint (RandomState/LRU), the JSON round trip goes through serde_json",
     "C14": "identity is a SipHash of tokens, message and suggestions in a HashSet<u64>; needs Document::new (Kani compiler crash on "
            "thread_local), hashing and serde",
     "C16": "whole-program glue over the curated dictionary, serde and wasm-bindgen; its solver-amenable ingredients are decided "
@@ -155,7 +169,7 @@ def main():
                 "engine": "kani-cbmc",
                 "level_claimed": {"category": "model_checking", "text": text, "design_ref": ref},
                 "level_note": note,
-                "technique": TECH2 if pid in ("C13", "C02", "C01", "C03", "C05", "C12") else TECH,
+                "technique": TECH2 if pid in ("C13", "C02", "C01", "C03", "C05", "C11", "C12") else TECH,
             })
         elif pid not in na:
             na[pid] = "check not built yet (work in progress; see DESIGN.md)"
@@ -179,7 +193,7 @@ def main():
                               "classifies results, replays counterexamples natively and writes evidence",
         }, {
             "name": "mirsym", "path": "/verif/mirsym",
-            "serves_properties": ["C01", "C02", "C03", "C05", "C12", "C13"],
+            "serves_properties": ["C01", "C02", "C03", "C05", "C11", "C12", "C13"],
             "kind_free_text": "path-forking symbolic executor for rustc's textual MIR (dumped from /repo on every run with the "
                               "nightly toolchain), z3 4.x via python3-vt decides branch feasibility and post-conditions; std calls "
                               "are dispatched to hand-written contracts (models.py)",
